@@ -1,9 +1,23 @@
 import os
 import sys
+import time
 import argparse
 
 ROOT = os.path.dirname(os.path.dirname(os.path.abspath(__file__)))
 sys.path.insert(0, ROOT)
+
+
+LIVE_RULE = {
+    "C11": "random schedules of {requests, pooled execution thunks with scripted outcomes, exchange-side fills / lapses, snapshots taken, kept and processed late / twice / stale, a snapshot processed between the exchange applying a request and the response, restart into a new framework instance} on the real Flumine + BetfairExecution against the exchange double; convergence judged at quiescent points, adoption at restart",
+    "C12": "TLC-style fault enumeration replayed on the real BetfairExecution: every assignment of report outcomes to packages of 1..2 (thorough 3) orders of each kind, cancel reports permuted / missing, API errors on attempts 1..4 (applied or not at the exchange), an order completing between request and response, each with and without a stream update during the call; plus random schedules",
+}
+LIVE_ASSUME = ["the exchange double is a model of Betfair's documented request semantics (replace = cancel then placement under the same customer reference, cancels not rolled back, BET_TAKEN_OR_LAPSED only for complete bets, repeated customerRef not applied twice)",
+               "handler granularity: one pooled execution (API call + response handling) is one step; a stream update between the exchange applying the request and the response is produced by processing a snapshot re-entrantly inside the double",
+               "Betdaq execution is outside C12 by the property's own text"]
+
+
+def livecheck_designs(prop):
+    return [{"module": "MC_LiveRun", "constants": {"MaxSteps": "14"}, "invariants": ["Inv_NoneStranded", "Inv_ConvergedAtQuiescence", "Inv_RetriesBounded"], "must_reach": ["Reach_CompleteByStream"]}]
 
 
 def main():
@@ -23,6 +37,41 @@ def main():
         elif a.prop in props.SIM:
             from checks.simcheck import run_check
             rc = run_check(a.prop, props.SIM[a.prop], tier, seed, replay=a.replay)
+            if rc != 2 and a.prop in ("C03", "C10", "C15", "C20") and not a.replay:
+                # live half: the same formulas on traces of the real Flumine against the exchange double
+                import json
+                from checks import livecheck
+                out = livecheck.run_check(a.prop, tier, seed, designs=[])
+                if isinstance(out, int):
+                    rc = out
+                else:
+                    path = os.path.join(ROOT, "evidence", "%s.json" % a.prop)
+                    with open(path) as f:
+                        ev = json.load(f)
+                    ev["coverage"]["live"] = {"traces": len(out["traces"]), "steps": out["res"]["states"], "activity": out["activity"],
+                                              "violations_unexplained": len(out["unexplained"]), "known_findings_hit": {k: len(v) for k, v in out["explained"].items()}}
+                    ev["coverage"]["traces_validated_against_impl"] += len(out["traces"])
+                    ev["coverage"]["states"] += out["res"]["states"]
+                    ev["coverage"]["transitions"] += out["res"]["states"]
+                    ev["violations"] = ev.get("violations", 0) + len(out["unexplained"])
+                    ev["wall_s"] = round(ev["wall_s"] + time.time() - out["t0"], 2)
+                    with open(path, "w") as f:
+                        json.dump(ev, f, indent=1, default=str)
+                    print("%s %s (live half): %d live traces (%d steps) validated, %d violations, %d known-finding hits" % (a.prop, tier, len(out["traces"]), out["res"]["states"], len(out["unexplained"]), sum(len(v) for v in out["explained"].values())))
+                    rc = max(rc, out["rc"])
+        elif a.prop in ("C11", "C12"):
+            from checks import livecheck
+            rc_sim, sim_cov = 0, None
+            if a.prop == "C12":     # the simulated execution half
+                import json
+                from checks.simcheck import run_check as sim_run
+                rc_sim = sim_run("C12", props.SIM["C12"], tier, seed, keep_evidence=True)
+                if rc_sim != 2:
+                    with open(os.path.join(ROOT, "evidence", "C12.json")) as f:
+                        sim_cov = json.load(f)["coverage"]
+            out = livecheck.run_check(a.prop, tier, seed, designs=livecheck_designs(a.prop))
+            rc = out if isinstance(out, int) else livecheck.finish_live(a.prop, tier, seed, out, LIVE_RULE[a.prop], LIVE_ASSUME, sim_cov=sim_cov)
+            rc = max(rc, rc_sim)
         elif a.prop == "C19":
             from checks.refcheck import run_check
             rc = run_check(tier, seed)
